@@ -50,7 +50,7 @@ def check_round_trip(name="everything", extra_type_names=()):
     try:
         open(os.path.join(d, "schema.graphql"), "w").write(sdl)
         source = G.build_schema(sdl)
-        for target, var, tmv in (("out.py", "my_schema", "my_types"), ("out.graphql", "schema", "type_map")):
+        for target, var, tmv in (("out.py", "mySchema", "TYPES_map"), ("out.graphql", "schema", "type_map")):
             cfg = dict(schema_path=os.path.join(d, "schema.graphql"), target_file_path=os.path.join(d, target),
                        schema_variable_name=var, type_map_variable_name=tmv, plugins=[])
             try:
@@ -64,6 +64,12 @@ def check_round_trip(name="everything", extra_type_names=()):
                         rep["failed"].append("variable-names-used")
                 else:
                     rebuilt = G.build_schema(open(os.path.join(d, target)).read())
+                if sorted(d.name for d in rebuilt.directives) != sorted(d.name for d in source.directives):
+                    rep["failed"].append(f"directives[{target}]")
+                    rep["outcome"][target + ":directives"] = sorted(d.name for d in rebuilt.directives)
+                probe = G.parse("query P($c: Boolean!) { __typename @include(if: $c) }")
+                if [e.message for e in G.validate(rebuilt, probe)] != [e.message for e in G.validate(source, probe)]:
+                    rep["failed"].append(f"same-operations-valid[{target}]")
                 if G.print_schema(rebuilt) != G.print_schema(source):
                     rep["failed"].append(f"round-trip[{target}]")
                     rep["cases"].append(target)
